@@ -500,3 +500,5 @@ def run(ctx):
     parse_fsm_rule(ctx, prog)
     err_table_rule(ctx, prog)
     run_bound_rule(ctx, prog)
+    import codecrules
+    codecrules.emit_symbol_law(ctx, prog, 'C05')
